@@ -1,6 +1,6 @@
 // Translation unit for uncrustify_end() (C11-K1), sliced verbatim from src/uncrustify.cpp.  The chunk list is a
 // ghost counter: Chunk::GetHead() returns a real chunk while g_list_len > 0, Chunk::Delete() removes one.
-#include "/repo/src/token_enum.h"
+#include "token_enum.h"      /* from the working tree: -I <repo>/src */
 #define VERIF_E_TOKEN
 #define VERIF_UNC_STAGE_T unc_stage_e
 #include "base.h"
